@@ -256,12 +256,18 @@ FrameOf(buf, sh, api) ==
   LET o == FrameOff(buf, sh, api) IN
   IF o < 0 \/ Len(buf) < o + 4 THEN [end |-> 0 - 1, n |-> 0]
   ELSE [end |-> o + U16(buf, o + 3, TRUE), n |-> U16(buf, o + 3, TRUE) - HdrsLen(buf[o + 1])]
-\* a successful call (message, filtered-out marker, skipped) must consume exactly the declared frame
+\* a successful call (message, filtered-out marker, skipped) must consume exactly a declared frame.  With resync (parse with
+\* storage header) the property does not say WHICH occurrence of the pattern the parser settles on (that is C06): the
+\* frame may start at any occurrence.
+FrameAtOcc(buf, k) == IF Len(buf) < k + 19 THEN [end |-> 0 - 1, n |-> 0]
+                      ELSE [end |-> k + 15 + U16(buf, k + 18, TRUE), n |-> U16(buf, k + 18, TRUE) - HdrsLen(buf[k + 16])]
+Occurrences(buf) == {k \in 1..(Len(buf) - 3) : buf[k] = 68 /\ buf[k + 1] = 76 /\ buf[k + 2] = 84 /\ buf[k + 3] = 1}
+FrameMatches(fr, buf, r) == /\ fr.end > 0 /\ r.consumed = fr.end /\ r.consumed <= Len(buf)
+                            /\ r.v \in {"msg", "filtered"} => r.n = fr.n                \* reported payload length = the distance
 FrameOk(buf, sh, api, r) ==      \* r: [v, consumed, n]
   IF r.v \notin {"msg", "filtered", "skipped", "invalid"} THEN TRUE          \* the property speaks about successful calls only
-  ELSE LET fr == FrameOf(buf, sh, api) IN
-       /\ fr.end > 0 /\ r.consumed = fr.end /\ r.consumed <= Len(buf)
-       /\ r.v \in {"msg", "filtered"} => r.n = fr.n                         \* reported payload length = the distance
+  ELSE IF sh /\ api = "parse" THEN \E k \in Occurrences(buf) : FrameMatches(FrameAtOcc(buf, k), buf, r)
+  ELSE FrameMatches(FrameOf(buf, sh, api), buf, r)
 
 \* ---------------------------------------------------------------- construct_arguments (C13)
 \* types: sequence of [kind, w, cod, vari, trai]; data: payload after the message id; be: byte order.
